@@ -461,7 +461,7 @@ PROPS = {
         'extra_units': [('gcc', ['-O1', '-g', '-std=gnu11'], 'engine/sched/sched.c')],
         'level': 'model_checking',
         'engine': 'schedule',
-        'rule': 'for each of 14 scenarios (2-4 real threads x 1-4 operations on one real object) every schedule with at most '
+        'rule': 'for each of 18 scenarios (2-4 real threads x 1-4 operations on one real object) every schedule with at most '
                 'b preemptions (b = 2 quick, 3 thorough) is executed under a serialising scheduler whose scheduling points '
                 'are the mutex and atomic operations of the unmodified library code; per schedule: ThreadSanitizer '
                 'happens-before reports, deadlock, linearizability against the object itself run sequentially. '
